@@ -28,9 +28,31 @@ impl<const N: usize> Cont for S<PlStack<u64, N, false, false>> { fn put(&self, v
 impl<const N: usize> Cont for S<AtomicQ<u64, N, 0>> { fn put(&self, v: u64) -> bool { self.0.enqueue(v).is_none() } fn take(&self) -> Option<u64> { self.0.dequeue() } fn len(&self) -> usize { self.0.len() } }
 impl<const N: usize> Cont for S<FullSyncQ<u64, N, 0>> { fn put(&self, v: u64) -> bool { self.0.enqueue(v).is_none() } fn take(&self) -> Option<u64> { self.0.dequeue() } fn len(&self) -> usize { self.0.len() } }
 
+/// a 192-byte element whose 24 words all carry the value: a copy torn between two pushes (or overwritten while being copied out) is recognisable
+#[derive(Clone, Copy, Debug)]
+pub struct Wide { w: [u64; 24] }
+impl Wide {
+    fn of(v: u64) -> Self { Wide { w: [v; 24] } }
+    /// the value, or a value nobody ever put (flagged by the conservation / linearizability check) when the words disagree
+    fn value(&self) -> u64 { if self.w.iter().all(|x| *x == self.w[0]) { self.w[0] } else { 0xBAD0_0000_0000_0000 | (self.w[0] & 0xFFFF) << 16 | (self.w[23] & 0xFFFF) } }
+}
+impl<const N: usize> Cont for S<AtomicStack<Wide, N, false, false>> { fn put(&self, v: u64) -> bool { self.0.push(Wide::of(v)) } fn take(&self) -> Option<u64> { self.0.pop().map(|w| w.value()) } fn len(&self) -> usize { self.0.len() } }
+impl<const N: usize> Cont for S<PlStack<Wide, N, false, false>> { fn put(&self, v: u64) -> bool { self.0.push(Wide::of(v)) } fn take(&self) -> Option<u64> { self.0.pop().map(|w| w.value()) } fn len(&self) -> usize { self.0.len() } }
+impl<const N: usize> Cont for S<AtomicQ<Wide, N, 0>> { fn put(&self, v: u64) -> bool { self.0.enqueue(Wide::of(v)).is_none() } fn take(&self) -> Option<u64> { self.0.dequeue().map(|w| w.value()) } fn len(&self) -> usize { self.0.len() } }
+impl<const N: usize> Cont for S<FullSyncQ<Wide, N, 0>> { fn put(&self, v: u64) -> bool { self.0.enqueue(Wide::of(v)).is_none() } fn take(&self) -> Option<u64> { self.0.dequeue().map(|w| w.value()) } fn len(&self) -> usize { self.0.len() } }
+
 pub const TARGETS: [&str; 4] = ["stack.atomic_flag", "stack.parking_lot", "queue.atomic", "queue.full_sync"];
 
-fn make(target: &str, n: usize) -> Arc<dyn Cont> {
+fn make(target: &str, n: usize, wide: bool) -> Arc<dyn Cont> {
+    if wide {
+        macro_rules! w { ($($N:literal),*) => { match (target, n) {
+            $( ("stack.atomic_flag", $N) => Arc::new(S(AtomicStack::<Wide, $N, false, false>::new("rmv".into()))) as Arc<dyn Cont>,
+               ("stack.parking_lot", $N) => Arc::new(S(PlStack::<Wide, $N, false, false>::new("rmv".into()))),
+               ("queue.atomic", $N) => Arc::new(S(AtomicQ::<Wide, $N, 0>::new("rmv"))),
+               ("queue.full_sync", $N) => Arc::new(S(FullSyncQ::<Wide, $N, 0>::new("rmv"))), )*
+            _ => panic!("no such container") } } }
+        return w!(2, 4, 8)
+    }
     macro_rules! m { ($($N:literal),*) => { match (target, n) {
         $( ("stack.atomic_flag", $N) => Arc::new(S(AtomicStack::<u64, $N, false, false>::new("rmv".into()))) as Arc<dyn Cont>,
            ("stack.parking_lot", $N) => Arc::new(S(PlStack::<u64, $N, false, false>::new("rmv".into()))),
@@ -44,8 +66,8 @@ fn make(target: &str, n: usize) -> Arc<dyn Cont> {
 pub enum Step { Put, Take, PutUntilFull, TakeUntilEmpty }
 
 #[derive(Clone, Debug)]
-pub struct Cfg { pub target: &'static str, pub n: usize, pub scripts: Vec<Vec<Step>>, pub long: u32 }
-impl Cfg { pub fn json(&self) -> J { J::obj().with("target", J::s(self.target)).with("capacity", J::i(self.n as i64)).with("scripts", J::Arr(self.scripts.iter().map(|s| J::s(format!("{:?}", s))).collect())).with("long_ops_per_thread", J::i(self.long as i64)) } }
+pub struct Cfg { pub target: &'static str, pub n: usize, pub scripts: Vec<Vec<Step>>, pub long: u32, /** 192-byte elements instead of 8-byte ones */ pub wide: bool }
+impl Cfg { pub fn json(&self) -> J { J::obj().with("target", J::s(self.target)).with("capacity", J::i(self.n as i64)).with("element_bytes", J::i(if self.wide { 192 } else { 8 })).with("scripts", J::Arr(self.scripts.iter().map(|s| J::s(format!("{:?}", s))).collect())).with("long_ops_per_thread", J::i(self.long as i64)) } }
 
 pub const PAUSE_SITES: &[u32] = &[rv::STACK_LOCKED, rv::STACK_BEFORE_HEAD_UPDATE, rv::STACK_BEFORE_RELEASE, rv::AM_LEAK_AFTER_RESERVE, rv::AM_PUBLISH_BEFORE, rv::AM_CONSUME_AFTER_RESERVE, rv::AM_CONSUME_AFTER_READ,
     rv::AM_RELEASE_AFTER, rv::ALLOC_AFTER_DEQUEUE, rv::DEALLOC_AFTER_DROP, rv::FS_LEAK_LOCKED, rv::FS_CONSUME_LOCKED, rv::FS_CONSUME_AFTER_READ, rv::FS_PUBLISH_BEFORE];
@@ -64,7 +86,7 @@ pub fn draw_cfg(rng: &mut Rng, only: Option<&str>, lane: Lane, long: bool) -> Cf
         }
         scripts.push(s);
     }
-    Cfg { target, n, scripts, long: if long { 50_000 + rng.below(400_000) as u32 } else { 0 } }
+    Cfg { target, n, scripts, long: if long { 50_000 + rng.below(400_000) as u32 } else { 0 }, wide: rng.chance(1, 3) }
 }
 
 #[derive(Clone, Debug)]
@@ -100,7 +122,8 @@ fn body(c: Arc<dyn Cont>, script: Vec<Step>, long: u32, tid: u32, seed: u64, cap
 }
 
 pub fn one_run(cfg: &Cfg, rc: &RunCfg, acc: &mut Acc) -> (Option<J>, u64, bool) {
-    let c = make(cfg.target, cfg.n);
+    let c = make(cfg.target, cfg.n, cfg.wide);
+    if cfg.wide { acc.count("runs_with_192_byte_elements", 1) }
     let hist: Hist = Arc::new(Mutex::new(Vec::new()));
     let taken_long = Arc::new(Mutex::new(Vec::new())); let put_long = Arc::new(Mutex::new(Vec::new()));
     let bodies: Vec<Body> = cfg.scripts.iter().enumerate().map(|(t, s)| body(c.clone(), s.clone(), cfg.long, t as u32, rc.seed, cfg.n, hist.clone(), taken_long.clone(), put_long.clone())).collect();
